@@ -1116,7 +1116,11 @@ def _extract_cd_target(node) -> str | None:
             part_kind = getattr(part, "kind", None)
             if part_kind in ("cmdsub", "param", "procsub"):
                 return None
-    return _get_word_value(target_word)
+    target = _get_word_value(target_word)
+    # `cd -`, `cd ~-`, `cd ~+`, `cd ~user`, `cd -P`: not the name of a directory
+    if target.startswith("-") or (target.startswith("~") and target[1:2] not in ("", "/")):
+        return None
+    return target
 
 
 def _resolve_cd_target(target: str, cwd: Path) -> Path:
